@@ -136,6 +136,12 @@ def parseReadItems : List String → Option (List ReadRes)
         match parseHex (t.drop 2).toString with
         | some bs => some (bs.map ReadRes.byte ++ more)
         | none => none
+      -- data returned together with an error: bufio hands the data over first, then the error
+      else if t.startsWith "be:" || t.startsWith "bt:" || t.startsWith "bx:" then
+        match parseHex (t.drop 3).toString with
+        | some bs => some (bs.map ReadRes.byte ++
+            (if t.startsWith "be:" then ReadRes.eof else if t.startsWith "bt:" then ReadRes.timeout else ReadRes.other) :: more)
+        | none => none
       else none
 
 /-- An ideal clock: `time.Now()` readings when only the sleeps take time (plus 1 ms each). -/
